@@ -108,8 +108,8 @@ def fuzz_leg(res, d, files, runs=None):
             for i, rc, err, out in ex.map(one, range(common.NCPU)):
                 m = re.search(r'stat::number_of_executed_units:\s*(\d+)', err)
                 execs += int(m.group(1)) if m else 0
-                for m in re.finditer(r'cov: (\d+)', err):
-                    cov = max(cov, int(m.group(1)))
+                m = re.search(r'stat::new_units_added:\s*(\d+)', err)
+                cov += int(m.group(1)) if m else 0
                 if rc != 0:
                     crashes += 1
                     key = common.sanitizer_key(err)
